@@ -74,6 +74,10 @@ def check_factory(case, ctx: Ctx):
     if "range" in kwargs:
         kwargs["range"] = tuple(kwargs["range"])
     arg = spec.get("arg")
+    if kind == "int" and spec.get("count_type"):
+        # a bin count that comes out of a numpy computation
+        arg = {"np_int64": np.int64, "np_int32": np.int32, "np_intp": np.intp}[spec["count_type"]](arg)
+        ctx.label("numpy_integer_bin_count")
     if kind == "edges":
         arg = np.array(arg)
     elif kind == "pairs":
@@ -309,6 +313,7 @@ def factory_cases(draw, tier="quick"):
     kw = spec["kwargs"]
     if kind == "int":
         spec["arg"] = draw(st.integers(1, 30))
+        spec["count_type"] = draw(st.sampled_from([None, None, "np_int64", "np_int32", "np_intp"]))
         if draw(st.booleans()):
             kw["range"] = [lo - span * draw(st.sampled_from([0.0, 0.5])), hi + span * draw(st.sampled_from([0.0, 0.25, 1.0]))]
     elif kind == "none":
@@ -516,6 +521,12 @@ def check_refusals(case, ctx: Ctx):
         ctx.refused("h1 with " + kind, physt.h1, data, np.array(bad))
         ctx.refused("StaticBinning with " + kind, StaticBinning, np.array(bad))
         ctx.refused("h with " + kind, physt.h, np.stack([data, data], axis=1), [np.array(bad), np.array([0.0, 1.0])])
+    elif kind == "nan_edge":
+        # an undefined edge makes the neighbouring bins meaningless (neither rising nor comparable)
+        ctx.refused("h1 with a NaN edge", physt.h1, data, np.array(bad))
+        ctx.refused("StaticBinning with a NaN edge", StaticBinning, np.array(bad))
+        if np.array(bad).ndim == 1:
+            ctx.refused("NumpyBinning with a NaN edge", NumpyBinning, np.array(bad))
     elif kind == "shape_n3":
         ctx.refused("h1 with (n,3) bins", physt.h1, data, np.array(bad))
         ctx.refused("StaticBinning with (n,3)", StaticBinning, np.array(bad))
@@ -538,7 +549,7 @@ def check_refusals(case, ctx: Ctx):
 def refusal_cases(draw, tier="quick"):
     kind = draw(st.sampled_from(["unsorted_edges", "duplicate_edge", "overlapping_pairs", "zero_width_pair", "reversed_pair", "unsorted_pairs",
                                  "shape_n3", "ndim3", "single_edge", "unknown_method", "q_and_bin_count", "nonpositive_width", "noninteger_bin_count",
-                                 "valid_int_edges"]))
+                                 "valid_int_edges", "nan_edge"]))
     data = draw(st.lists(st.floats(-5, 5, allow_nan=False), min_size=3, max_size=10))
     if max(data) == min(data):
         data = data + [min(data) + 1.0]
@@ -563,6 +574,15 @@ def refusal_cases(draw, tier="quick"):
         else:
             ps[j], ps[j + 1] = ps[j + 1], ps[j]
         case["bad"] = ps
+    elif kind == "nan_edge":
+        if draw(st.booleans()):
+            e2 = list(e)
+            e2[draw(st.integers(0, len(e2) - 1))] = float("nan")
+            case["bad"] = e2
+        else:
+            ps = [[a, b] for a, b in zip(e[:-1], e[1:])]
+            ps[draw(st.integers(0, len(ps) - 1))][draw(st.integers(0, 1))] = float("nan")
+            case["bad"] = ps
     elif kind == "shape_n3":
         case["bad"] = [[a, a + 1.0, a + 2.0] for a in e[:3]]
     elif kind == "ndim3":
